@@ -117,6 +117,15 @@ def iradon_torch(
     if output_size is None:
         output_size = N if circle else int(torch.floor(torch.sqrt(torch.tensor(N**2 / 2.0))))
 
+    if circle:
+        # skimage pads a circle-mode sinogram with zeros to the image diagonal before filtering
+        # (_sinogram_circle_to_square): the FFT size, the windowed filters and the filtered
+        # samples just outside the original extent all depend on it
+        diagonal = int(torch.ceil(torch.sqrt(torch.tensor(2.0, dtype=torch.float64)) * N))
+        pad_before = diagonal // 2 - N // 2
+        sinograms = F.pad(sinograms, (pad_before, diagonal - N - pad_before))
+        N = diagonal
+
     # Padding for FFT
     padded_size = max(
         64, int(2 ** torch.ceil(torch.log2(torch.tensor(2 * N, dtype=torch.float32))))
@@ -147,6 +156,7 @@ def iradon_torch(
         t0 = torch.floor(t_idx).long().clamp(0, N - 2)  # [1, H, W]
         t1 = t0 + 1
         w = t_idx - t0.float()
+        outside = (t_idx < 0) | (t_idx > N - 1)  # skimage: np.interp(..., left=0, right=0)
 
         t0 = t0.expand(B, -1, -1)  # [B, H, W]
         t1 = t1.expand(B, -1, -1)
@@ -156,7 +166,7 @@ def iradon_torch(
         val1 = torch.gather(filtered_i, 1, t1.view(B, -1)).view(B, output_size, output_size)
 
         proj = (1 - w) * val0 + w * val1
-        recon += proj
+        recon += torch.where(outside, torch.zeros_like(proj), proj)
 
     if circle:
         mask = (
